@@ -264,7 +264,21 @@ def _path_data(F, fn, block):
     cache = F.__dict__.setdefault('_d1p_cache', {})
     if key not in cache:
         if len(fn.blocks) > 260:
+            # the dispatch function: enumerate only the paths of the opcode arm the site belongs to (facts established
+            # before the dispatch are not used)
             cache[key] = None
+            try:
+                from rules import vmx as _vmx
+                dfn, header, swb, arms, loop_body = _vmx.find_dispatch(F)
+                if dfn is fn:
+                    for opname, entry in arms.items():
+                        if block in fn.reachable(entry, stop={header}):
+                            ai = AbsInt(F, fn, {}, stop_blocks={header}, max_paths=6000, watch={block})
+                            ps = ai.run(entry)
+                            cache[key] = None if ai.truncated else ps
+                            break
+            except CheckerError:
+                pass
         else:
             ai = AbsInt(F, fn, max_paths=6000, watch={block})
             ps = ai.run()
@@ -296,16 +310,30 @@ def _lt_established(p, pos, I, want_count, env):
             continue
         if a != I or _count_of(b, env) != want_count:
             continue
-        # nothing between the guard and the site may change the container
-        cont = want_count[2]
-        bad = False
-        for k, cl in enumerate(p.calls):
-            if p.cpos[ci] < p.callpos[k] < pos:
-                if any(_container(x, env) == cont for x in cl[2] if isinstance(x, tuple)) and not any(cl[1].endswith(s) for s in _NONMUT):
-                    bad = True
-        if not bad:
+        if _stable_after(p, p.cpos[ci], pos, want_count[2], env):
             return True
+    # a resize(X, I + 1, ..) earlier on the path makes X.len() == I + 1
+    if want_count[1] == 'len':
+        for k, cl in enumerate(p.calls):
+            if p.callpos[k] < pos and cl[1].endswith('Vec::<T, A>::resize') and len(cl[2]) >= 2 and _container(cl[2][0], env) == want_count[2]:
+                n = cl[2][1]
+                while isinstance(n, tuple) and n[0] == 'cast':
+                    n = n[1]
+                if n[0] == 'field' and n[2] == '0' and n[1][0] == 'binop' and n[1][1] == 'AddWithOverflow':
+                    n = ('binop', 'Add', n[1][2], n[1][3], n[1][4])
+                if n[0] == 'binop' and n[1] == 'Add' and ((n[2] == I and int_of(n[3]) == 1) or (n[3] == I and int_of(n[2]) == 1)):
+                    if _stable_after(p, p.callpos[k], pos, want_count[2], env):
+                        return True
     return False
+
+
+def _stable_after(p, frm, pos, cont, env):
+    """no call between positions frm and pos (exclusive) could change the length of the container"""
+    for k, cl in enumerate(p.calls):
+        if frm < p.callpos[k] < pos:
+            if any(_container(x, env) == cont for x in cl[2] if isinstance(x, tuple)) and not any(cl[1].endswith(s) for s in _NONMUT):
+                return False
+    return True
 
 
 def path_discharge(F, site):
